@@ -270,6 +270,11 @@ func init() {
 				if ruleIn(o, "G") && funcHas(o, "(*Buffer).get", "(*Buffer).getAsync") {
 					return true
 				}
+				// a lock-order cycle between the consumer and buffer locks pins Buffer.mutex: the watcher, Put and Close
+				// could never take cond.L, so a parked Get would never be woken
+				if o.Rule == "O" && subjHas(o, "Buffer.mutex", "consumer.mutex") {
+					return true
+				}
 				return false
 			})
 			return append(out, c.C.List...)
